@@ -148,6 +148,12 @@ def templates(tier="quick"):
     add("dyndep_output_on_scanned_leaf_midbuild", [Variant("v0", stm5b)], ["top", "y", "z"], files={"dd.in": dd5, "n": "pre-existing\n"},
         tags=["dyndep"])
 
+    # the cycle is among what the manifest itself is made from: it is met by the step that brings build.ninja up to date,
+    # whatever is requested
+    mv = Variant("m0", [Stmt("build.ninja", ex=["build.ninja.in"], im=["cfg"], generator=True, copy=True),
+                        Stmt("cfg", ex=["tool"]), Stmt("tool", ex=["cfg"]), Stmt("a", ex=["s"])], defaults=["a"])
+    add("manifest_made_from_a_cycle", [mv], ["a", "cfg"], files={"build.ninja.in": mv.manifest()}, tags=["manifest-regen", "generator"])
+
     # the dyndep file spells the cycle-closing input the way generated files do (./circ, zz/../circ)
     for spn, sp in (("dot", "./circ"), ("dotdot", "zz/../circ")):
         dds = dyndep_text([("out", [], [sp], False)])
